@@ -212,7 +212,7 @@ impl SubCheck for Timeouts {
         "timeouts_in_child_processes"
     }
     fn cases(&self, tier: Tier) -> u32 {
-        tier.pick(14, 60)
+        tier.pick(5, 20)
     }
     fn workers(&self) -> usize {
         // children use up to 4 threads each
@@ -223,10 +223,31 @@ impl SubCheck for Timeouts {
     }
     fn strategy(&self, _tier: Tier) -> BoxedStrategy<TimeoutCase> {
         (prop_oneof![Just("bfs"), Just("dfs"), Just("on_demand"), Just("simulation")], prop_oneof![Just(1usize), Just(2usize), Just(4usize)], any::<bool>(), prop_oneof![3 => 150u64..450, 1 => 1050u64..2300], prop_oneof![Just(600_000u64), Just(30_000u64), Just(2_500u64), Just(950u64)], proptest::bool::weighted(0.4))
-            .prop_map(|(s, threads, expiring, timeout_ms, unexpired_ms, chain)| TimeoutCase { strat: s.to_string(), threads, expiring, timeout_ms, unexpired_ms, chain: chain && expiring })
+            .prop_map(|(s, threads, expiring, timeout_ms, unexpired_ms, chain)| TimeoutCase { strat: s.to_string(), threads, expiring, timeout_ms, unexpired_ms, chain })
             .boxed()
     }
-    fn check(&self, c: &TimeoutCase, cov: &mut Cov) -> Result<(), Fail> {
+    fn check(&self, b: &TimeoutCase, cov: &mut Cov) -> Result<(), Fail> {
+        // One generated case is a *bundle* of three scenarios, so that every mandatory class is
+        // covered by construction (with 14 independent draws "expiring with one thread" was
+        // missing from 8 % of the runs): expiring with one thread on the bushy model, expiring
+        // with the generated thread count on the generated model, unexpired on the finite model.
+        let single = TimeoutCase { threads: 1, expiring: true, chain: false, ..b.clone() };
+        let multi = TimeoutCase { expiring: true, ..b.clone() };
+        let unexpired = TimeoutCase { expiring: false, chain: false, ..b.clone() };
+        check_one(&single, cov)?;
+        if multi != single {
+            check_one(&multi, cov)?;
+        }
+        check_one(&unexpired, cov)
+    }
+    fn mandatory(&self) -> Vec<&'static str> {
+        vec!["expiring_timeout", "unexpired_timeout", "expiring/single_thread"]
+    }
+}
+
+/// One timeout scenario (see `TimeoutCase`).
+pub fn check_one(c: &TimeoutCase, cov: &mut Cov) -> Result<(), Fail> {
+    {
         let th = c.threads.to_string();
         cov.eval();
         if c.expiring {
@@ -303,9 +324,6 @@ impl SubCheck for Timeouts {
         }
         Ok(())
     }
-    fn mandatory(&self) -> Vec<&'static str> {
-        vec!["expiring_timeout", "unexpired_timeout", "expiring/single_thread"]
-    }
 }
 
 /// The expiring scenario on the endless chain only: with 2 or 4 threads all workers but one sit
@@ -332,7 +350,7 @@ impl SubCheck for IdleWorkersAtExpiry {
             .boxed()
     }
     fn check(&self, c: &TimeoutCase, cov: &mut Cov) -> Result<(), Fail> {
-        Timeouts.check(c, cov)
+        check_one(c, cov)
     }
     fn mandatory(&self) -> Vec<&'static str> {
         vec!["expiring/idle_workers_at_expiry"]
